@@ -138,6 +138,7 @@ package alloctxn
 //@   allocates buf.Buf
 //@   modifies buf.Buf.dirty, []uint8@buf.Buf.Data, zeroed
 //@   ghostexit zeroed = store(zeroed, blkno, true)
+//@   ensures [Z1-frame] forall r *buf.Buf, i uint64 :: r.Addr.Blkno != blkno && i < len(r.Data) ==> r.Data[i] == old(r.Data[i]) @C12 @C04
 //@   ensureslocal [Z1-published] buf.dirty @C12
 //@   ensureslocal [Z1-zeroed] buf.Addr.Blkno == blkno && len(buf.Data) == 4096 && (forall j uint64 :: j < 4096 ==> buf.Data[j] == 0) @C12
 //@   loop 0 invariant len(buf.Data) == 4096 && uint64(rangeindex+1) <= 4096 && (forall j uint64 :: j < uint64(rangeindex+1) ==> buf.Data[j] == 0)
@@ -149,6 +150,7 @@ package alloctxn
 //@   allocates buf.Buf
 //@   modifies buf.Buf.dirty, []uint8@buf.Buf.Data, atxn.freeBnums, atxn.freeBnums[*], zeroed
 //@   ensures [Z1-freed-zero] blkno != 0 ==> zeroed[blkno] @C12
+//@   ensures [Z1-frame] forall r *buf.Buf, i uint64 :: r.Addr.Blkno != blkno && i < len(r.Data) ==> r.Data[i] == old(r.Data[i]) @C12 @C04
 //@   ensures [Z1-mono] forall b uint64 :: old(zeroed)[b] ==> zeroed[b] @C12
 //@   ensures listsValid(atxn) && listsStable(atxn)
 //@   ensures [F5-recorded] blkno != 0 ==> len(atxn.freeBnums) == old(len(atxn.freeBnums)) + 1 && atxn.freeBnums[old(len(atxn.freeBnums))] == blkno @C05
